@@ -128,7 +128,7 @@ func genRaw(emit func(string), tier string, rng *Rng) {
 			emit("rawdec b:" + hex.EncodeToString(b))
 		}
 	}
-	n, maxLen := 700, 8000
+	n, maxLen := 2500, 8000
 	if thorough {
 		n, maxLen = 40000, 70000
 	}
